@@ -495,8 +495,114 @@ fn check_big_raw_copy(size: u64, st: &mut Stats, order: u64) {
     }
 }
 
+/// A small hand-built source archive whose only entry (deflated, `payload` as stored bytes) claims an
+/// uncompressed size beyond 32 bits through its ZIP64 fields. Raw copy never decodes, so the claim travels.
+pub fn claimed_size_source(claim: u64) -> Vec<u8> {
+    let payload: [u8; 9] = [0x63, 0x60, 0x18, 0x05, 0xa3, 0x60, 0x14, 0x0c, 0x00];
+    let mut v: Vec<u8> = vec![];
+    let c = payload.len() as u32;
+    // local header with a ZIP64 block carrying both sizes
+    v.extend_from_slice(&le32(0x04034b50));
+    v.extend_from_slice(&le16(45));
+    v.extend_from_slice(&le16(0));
+    v.extend_from_slice(&le16(8));
+    v.extend_from_slice(&le16(0x6000));
+    v.extend_from_slice(&le16(0x5821));
+    v.extend_from_slice(&le32(0x1234abcd));
+    v.extend_from_slice(&le32(0xffff_ffff));
+    v.extend_from_slice(&le32(0xffff_ffff));
+    v.extend_from_slice(&le16(5));
+    v.extend_from_slice(&le16(20));
+    v.extend_from_slice(b"claim");
+    v.extend_from_slice(&le16(1));
+    v.extend_from_slice(&le16(16));
+    v.extend_from_slice(&le64(claim));
+    v.extend_from_slice(&le64(c as u64));
+    v.extend_from_slice(&payload);
+    let cd = v.len() as u32;
+    v.extend_from_slice(&le32(0x02014b50));
+    v.extend_from_slice(&le16((3 << 8) | 45));
+    v.extend_from_slice(&le16(45));
+    v.extend_from_slice(&le16(0));
+    v.extend_from_slice(&le16(8));
+    v.extend_from_slice(&le16(0x6000));
+    v.extend_from_slice(&le16(0x5821));
+    v.extend_from_slice(&le32(0x1234abcd));
+    v.extend_from_slice(&le32(c));
+    v.extend_from_slice(&le32(0xffff_ffff));
+    v.extend_from_slice(&le16(5));
+    v.extend_from_slice(&le16(12));
+    v.extend_from_slice(&le16(0));
+    v.extend_from_slice(&le16(0));
+    v.extend_from_slice(&le16(0));
+    v.extend_from_slice(&le32(0o100644 << 16));
+    v.extend_from_slice(&le32(0));
+    v.extend_from_slice(b"claim");
+    v.extend_from_slice(&le16(1));
+    v.extend_from_slice(&le16(8));
+    v.extend_from_slice(&le64(claim));
+    let cd_size = v.len() as u32 - cd;
+    v.extend_from_slice(&le32(0x06054b50));
+    v.extend_from_slice(&le16(0));
+    v.extend_from_slice(&le16(0));
+    v.extend_from_slice(&le16(1));
+    v.extend_from_slice(&le16(1));
+    v.extend_from_slice(&le32(cd_size));
+    v.extend_from_slice(&le32(cd));
+    v.extend_from_slice(&le16(0));
+    v
+}
+
+/// Raw copy of an entry whose size (but not its compressed size) needs ZIP64: the copy's local header and
+/// central record must both carry the claimed size.
+fn check_claimed_raw_copy(claim: u64, raw_open: bool, st: &mut Stats, order: u64) {
+    st.evals += 1;
+    let case = || json!({"kind": "claimed-rawcopy", "claim": claim, "raw_open": raw_open});
+    let src = claimed_size_source(claim);
+    let calls = vec![
+        Call::StartFile { name: "before".into(), opts: FOpts::m(8) },
+        Call::Write(b"before".to_vec()),
+        Call::RawCopy { src: 0, idx: 0, rename: None, raw_open },
+        Call::StartFile { name: "after".into(), opts: FOpts::m(0) },
+        Call::Write(b"after".to_vec()),
+        Call::Finish,
+    ];
+    let (res, bytes) = exec(&calls, &[src]);
+    if let Some((c, r)) = calls.iter().zip(&res).find(|(_, r)| !r.is_ok()) {
+        st.viol(format!("claimed-rawcopy/{}/{}", if r.is_panic() { "panic" } else { "call-failed" }, c.opname()), format!("raw copy of an entry claiming {claim} bytes: {} gave {}", c.opname(), r.show()), case(), order);
+        return;
+    }
+    match zipparse::parse(&bytes, &Opts { local_agrees: true, ..Opts::lenient() }) {
+        Err(e) => st.viol(format!("claimed-rawcopy/unparsable/{}", e.clause), format!("copy of an entry claiming {claim} bytes: {e}"), case(), order),
+        Ok(p) => {
+            let e = &p.entries[1];
+            if e.usize_ != claim || e.l_usize != claim || e.csize != 9 || e.l_csize != 9 {
+                st.class("CLAIM-LOST");
+                st.viol(
+                    "claimed-rawcopy/size-not-carried",
+                    format!("raw copy of an entry of {claim} bytes (9 compressed): the copy records size {} / compressed {} centrally and size {} / compressed {} in its local header", e.usize_, e.csize, e.l_usize, e.l_csize),
+                    case(),
+                    order,
+                );
+            } else {
+                st.class("claimed-size-carried");
+            }
+            match observe(&bytes, None, 1 << 16) {
+                Ok(o) if o.entries.len() == 3 && o.entries[1].size == claim && o.entries[0].content.as_ref().ok().map(|c| &c[..]) == Some(b"before") && o.entries[2].content.as_ref().ok().map(|c| &c[..]) == Some(b"after") => {}
+                other => st.viol("claimed-rawcopy/reader", format!("crate reader on the copy: {:?}", other.map(|o| o.entries.iter().map(|e| (e.name.clone(), e.size)).collect::<Vec<_>>())), case(), order),
+            }
+        }
+    }
+}
+
 fn replay(case: &Value, st: &mut Stats) {
     match case["kind"].as_str().unwrap_or("") {
+        "claimed-rawcopy" => check_claimed_raw_copy(case["claim"].as_u64().unwrap_or(0), case["raw_open"].as_bool().unwrap_or(false), st, 0),
+        "calls" => {
+            let regen = |n: usize| vec![b'q'; n];
+            let calls = calls_from_json(&case["calls"], &regen);
+            crate::props::c02::run_calls(&calls, None, &crate::props::c02::sources(1), true, None, st, 0, "large_file-flag", None);
+        }
         "sizes" => check_sizes(&Case::from(case), st, 0),
         "count" => check_count(case["n"].as_u64().unwrap_or(0) as usize, &crate::util::unhex(case["comment"].as_str().unwrap_or("")), st, 0),
         "foreign" => check_foreign(case["offset"].as_u64().unwrap_or(0), case["size"].as_u64().unwrap_or(0), case["force"].as_bool().unwrap_or(false), st, 0),
@@ -552,7 +658,7 @@ pub fn run(args: &Args) -> i32 {
     ctx.rule = format!(
         "E-PROD over boundary values through a sparse in-memory sink/source (64 KiB pages; zero pages are holes). Entry counts {:?} x comment {{none, 'c'}}. Size/offset cases ({}): stored zero-filled entries of {:?} bytes x large_file {{no,yes}} (first, and followed by a small entry with an archive comment); \
          small entries whose local header offset is exactly {:?}; an entry of exactly 2^32-1 bytes behind the 4 GiB mark{}. Oracle: without large_file, more than 2^32-1 bytes must be refused by some call and never end in a finished archive with other sizes; otherwise finish succeeds and both the strict independent parser (on the sparse blob) and the crate reader \
-         recover count, every size, CRC (of zeros, computed by CRC combination), every offset, and the full content length. Foreign: 512 small builder-made archives with ZIP64 values forced in every subset of {{size, compressed size, offset}} (sizes differing, block before/after other blocks, with/without local ZIP64 block and 64-bit data descriptor); sparse hand-built archives with true > 4 GiB size and/or header offset, with minimal and with all-fields ZIP64 blocks (6 layouts); raw copy of a 2^32+1-byte entry between sparse archives. distinct_nontrivial = number of distinct cases (each is unique).",
+         recover count, every size, CRC (of zeros, computed by CRC combination), every offset, and the full content length. Foreign: 512 small builder-made archives with ZIP64 values forced in every subset of {{size, compressed size, offset}} (sizes differing, block before/after other blocks, with/without local ZIP64 block and 64-bit data descriptor); sparse hand-built archives with true > 4 GiB size and/or header offset, with minimal and with all-fields ZIP64 blocks (6 layouts); raw copy of a 2^32+1-byte entry between sparse archives; raw copies of a compressed entry whose size (2^32-1 .. 2^40) but not compressed size needs ZIP64; 157 programs with the large_file flag on small entries (plain, extra data in every placement, aligned) judged by the strict parser and both readers. distinct_nontrivial = number of distinct cases (each is unique).",
         counts,
         cases.len(),
         sizes,
@@ -629,6 +735,65 @@ pub fn run(args: &Args) -> i32 {
             c03::check_archive(spec, &bytes, &lay, st, (7 << 40) + i, "zip64-subsets");
         });
         ctx.stats.merge(s);
+    }
+    // the large_file flag on small entries (the 20-byte local ZIP64 block must be accounted for everywhere), incl. extra data and alignment
+    {
+        let src = crate::props::c02::sources(args.seed);
+        let x = |calls: Vec<Call>| calls;
+        let lf = |m: u16| FOpts { large: true, ..FOpts::m(m) };
+        let rec = crate::reference::zipbuild::extra_block(0xbeef, b"large-file extra");
+        let mut progs: Vec<Vec<Call>> = vec![];
+        for m in [0u16, 8, 12, 93] {
+            for content in [vec![], b"small".to_vec(), content_class(3, args.seed)] {
+                progs.push(x(vec![Call::StartFile { name: "lf".into(), opts: lf(m) }, Call::Write(content.clone()), Call::Finish]));
+                progs.push(x(vec![Call::StartExtra { name: "lfx".into(), opts: lf(m) }, Call::Write(rec.clone()), Call::EndExtra, Call::Write(content.clone()), Call::StartFile { name: "next".into(), opts: FOpts::m(8) }, Call::Write(b"next".to_vec()), Call::Finish]));
+                progs.push(x(vec![Call::StartExtra { name: "lfe".into(), opts: lf(m) }, Call::EndExtra, Call::Write(content.clone()), Call::Finish]));
+                progs.push(x(vec![Call::StartExtra { name: "lfc".into(), opts: lf(m) }, Call::Write(rec.clone()), Call::EndLocalStartCentral, Call::Write(rec.clone()), Call::EndExtra, Call::Write(content.clone()), Call::Finish]));
+                for align in [2u16, 4, 64, 4096] {
+                    progs.push(x(vec![Call::StartFile { name: "p".into(), opts: FOpts::m(0) }, Call::Write(b"p".to_vec()), Call::StartAligned { name: "lfa".into(), opts: lf(m), align }, Call::Write(content.clone()), Call::StartFile { name: "next".into(), opts: lf(0) }, Call::Write(b"n".to_vec()), Call::Finish]));
+                }
+            }
+        }
+        progs.push(vec![Call::AddDir { name: "lfd".into(), opts: lf(0) }, Call::AddSymlink { name: "lfl".into(), target: "lfd".into(), opts: lf(0) }, Call::Finish]);
+        ctx.bound("large_file_flag_on_small_entries", json!(progs.len()));
+        let (progs_r, src_r) = (&progs, &src);
+        let s = par_for(progs.len() as u64, 4, |i, st| {
+            crate::props::c02::run_calls(&progs_r[i as usize], None, src_r, true, None, st, (8 << 40) + i, "large_file-flag", None);
+            // and the content must come back through both readers
+            let (res, bytes) = exec(&progs_r[i as usize], src_r);
+            if res.iter().all(|r| r.is_ok()) {
+                let ok_seek = observe(&bytes, None, 1 << 20).map(|o| o.entries.iter().all(|e| e.content.is_ok())).unwrap_or(false);
+                let mut cur = std::io::Cursor::new(&bytes[..]);
+                let mut ok_stream = true;
+                loop {
+                    match zip::read::read_zipfile_from_stream(&mut cur) {
+                        Ok(Some(mut f)) => {
+                            let mut v = vec![];
+                            if f.read_to_end(&mut v).is_err() {
+                                ok_stream = false;
+                            }
+                        }
+                        Ok(None) => break,
+                        Err(_) => {
+                            ok_stream = false;
+                            break;
+                        }
+                    }
+                }
+                if !ok_seek || !ok_stream {
+                    st.viol("large_file-flag/unreadable", format!("large_file entry program {i}: seekable reader ok: {ok_seek}, streaming reader ok: {ok_stream}"), json!({"kind": "calls", "calls": calls_json(&progs_r[i as usize])}), (8 << 40) + i);
+                }
+            }
+        });
+        ctx.stats.merge(s);
+        // raw copies of entries whose size, but not compressed size, needs ZIP64
+        let mut st = Stats::default();
+        for claim in [G4 - 1, G4, G4 + 1, 1 << 40] {
+            for raw_open in [false, true] {
+                check_claimed_raw_copy(claim, raw_open, &mut st, (9 << 40) + claim);
+            }
+        }
+        ctx.stats.merge(st);
     }
     ctx.stats.sample(json!({"kind": "count", "n": 65536}));
     ctx.distinct_counted = ctx.stats.evals;
